@@ -77,6 +77,14 @@ func curatedLexSpecs() []*LSpec {
 	// overlapping classes that must be split into pieces; a literal inside the overlap
 	out = append(out, finishSpec(&LMode{Rules: []*LRule{
 		tokRule(seq(cls(false, "", RRange{'a', 'm'}))), tokRule(seq(cls(false, "", RRange{'h', 'z'}), lit("!", ""))), tokRule(seq(lit("k", ""), lit("?", ""))), ws}}))
+	// a rule that can match the EMPTY string and carries mode actions ends a pushed mode (the idiom of
+	// examples/bolox): its actions take effect wherever the mode cannot go on, also at the end of the input
+	out = append(out, finishSpec(
+		&LMode{Rules: []*LRule{tokRule(seq(lit("<", "")), LAct{Kind: "push", Mode: 1}), tokRule(seq(cls(false, "+", RRange{'0', '9'}))), tokRule(seq(lit("%", ""))), ws}},
+		&LMode{Name: "Name", Rules: []*LRule{fragRule(seq(cls(false, "", az))), fragRule(seq(cls(false, "*", RRange{' ', ' '})), LAct{Kind: "pop"}, LAct{Kind: "emit", Tok: 2})}}))
+	out = append(out, finishSpec(
+		&LMode{Rules: []*LRule{tokRule(seq(lit("(", "")), LAct{Kind: "push", Mode: 1}), tokRule(seq(cls(false, "+", az))), ws}},
+		&LMode{Name: "In", Rules: []*LRule{tokRule(seq(cls(false, "+", RRange{'0', '9'}))), tokRule(seq(lit(")", "?")), LAct{Kind: "pop"})}}))
 	// many single-character tokens, one of them also covered by a class token: DFA states with several accepting
 	// NFA states next to leaves with one (state-merging criteria in minimisation; NFA state numbers 1 … 40)
 	for _, classAt := range []int{1, 0, 4} {
